@@ -88,6 +88,16 @@ def check_value(v, indent=None, seen=None):
         raise Violation('a standard parser reads %r back as a different value' % (text[:80],), d, 'roundtrip-standard')
     if not json_equal(back, v):
         raise Violation('jsonParse(jsonStringify(v)) differs from v; text %r' % (text[:80],), d, 'roundtrip-jsonparse')
+    if isinstance(back, (list, dict)):
+        # modify the parsed result in place, then round-trip the same value again: jsonParse must hand out independent values
+        if isinstance(back, list):
+            back.append('modified by the caller')
+        else:
+            back['modified by the caller'] = 1.0
+        out2 = impl.run_model(models()['plain'] if indent is None else models()['indent'], {'v': v, 'n': indent}, [], debug=False)
+        if out2.kind != 'ok' or not isinstance(out2.value, list) or not json_equal(out2.value[1], v):
+            raise Violation('after the caller modified an earlier jsonParse result, jsonParse(jsonStringify(v)) gives %r for v = %r' % (
+                out2.value[1] if out2.kind == 'ok' and isinstance(out2.value, list) else out2, v), d, 'parse-result-shared')
     if not pairs_sorted[0]:
         raise Violation('object keys are not in sorted order in %r' % (text[:80],), d, 'key-order')
     # number tokens: integral |x| < 1e16 carry no fraction; the k-th number token denotes the k-th number
